@@ -654,7 +654,8 @@ func standingAssumptions() []string {
 	return []string{
 		"A-LEN: slice/string lengths and capacities are <= 2^40",
 		"A-ALLOC: allocation never fails; the Go stack never overflows",
-		"A-NONNIL: nil-pointer dereference panics are not obligations unless a contract says 'nonil' (pointers dereferenced are assumed non-nil)",
+		"A-NONNIL: nil-pointer dereference panics are obligations only in functions swept under a nilsweep directive, and there only for call results and map lookups (other pointers dereferenced are assumed non-nil)",
+		"A-TYPEDNIL: an interface value whose dynamic type is a pointer type holds a non-nil pointer (no typed-nil Sexp values)",
 		"A-EXT: calls into the standard library / third-party packages do not write interpreter state except through pointer or slice arguments passed directly, and do not call back into zygo unless handed a func value",
 		"T-LOG: debug printers P/Q/VPrintf/vv are pure",
 		"termination is not proved (partial correctness)",
